@@ -24,22 +24,47 @@ impl Buf {
         self.d[self.len] = x;
         self.len += 1;
     }
+    /// Appends a slice.  Indices are `base + i` with `base` read once, so that they stay
+    /// constants for CBMC whenever the current length is a constant.
     pub fn extend(&mut self, s: &[u8]) {
+        let base = self.len;
+        if base + s.len() > BCAP {
+            crate::mfail!("MODEL:buffer capacity");
+        }
         let mut i = 0;
         while i < s.len() {
-            self.push(s[i]);
+            self.d[base + i] = s[i];
             i += 1;
         }
+        self.len = base + s.len();
     }
-    /// appends the live part of `s` (constant-bound loop)
+    /// appends the live part of `s` (constant-bound loop, indices `base + i`)
     pub fn extend_buf(&mut self, s: &Buf) {
+        let base = self.len;
+        if base + s.len > BCAP {
+            crate::mfail!("MODEL:buffer capacity");
+        }
         let mut i = 0;
         while i < BCAP {
-            if i < s.len {
-                self.push(s.d[i]);
+            if i < s.len && base + i < BCAP {
+                self.d[base + i] = s.d[i];
             }
             i += 1;
         }
+        self.len = base + s.len;
+    }
+    /// appends exactly `w` bytes of `s.d` (fixed width: the length of the result does not depend on `s.len`)
+    pub fn extend_fixed(&mut self, s: &Buf, w: usize) {
+        let base = self.len;
+        if base + w > BCAP || w > BCAP {
+            crate::mfail!("MODEL:buffer capacity");
+        }
+        let mut i = 0;
+        while i < w {
+            self.d[base + i] = s.d[i];
+            i += 1;
+        }
+        self.len = base + w;
     }
     pub fn eq(&self, o: &Buf) -> bool {
         let mut same = self.len == o.len;
